@@ -373,7 +373,8 @@ def write_json(path, obj):
 
 
 def evidence_path(prop):
-    return os.path.join(VERIF_DIR, "evidence", f"{prop}.json")
+    d = os.environ.get("PGSIM_EVIDENCE_DIR") or os.path.join(VERIF_DIR, "evidence")
+    return os.path.join(d, f"{prop}.json")
 
 
 def replay_path(prop, seed, idx, tag=""):
@@ -479,3 +480,25 @@ class StepClock:
         self.ticks = 0
         self.budget = budget
         self.exceeded = False
+
+
+class CpuGuard:
+    """Cheap hang guard for simulated processes where liveness is not the
+    property under test: raises StepBudgetExceeded after `seconds` of CPU time
+    of this process (ITIMER_VIRTUAL).  Its firing never decides a violation: the
+    affected comparison is skipped and counted."""
+
+    def __init__(self, seconds):
+        self.seconds = seconds
+
+    def _handler(self, signum, frame):
+        raise StepBudgetExceeded("cpu")
+
+    def __enter__(self):
+        signal.signal(signal.SIGVTALRM, self._handler)
+        signal.setitimer(signal.ITIMER_VIRTUAL, self.seconds)
+        return self
+
+    def __exit__(self, *a):
+        signal.setitimer(signal.ITIMER_VIRTUAL, 0)
+        return False
